@@ -90,6 +90,10 @@ def ratioSparse [LT F] [DecidableLT F] (ak : List F) (src evt : List Nat) (vals 
   if 0 < sumF ak ∨ sumF ak < 0 then (sparseSums ak src evt vals nSel).map (· / sumF ak)
   else sparseSums ak src evt vals nSel
 
+/-- `a_k = a_jk[self._dataset_idx]`: the stacked ratio of a dataset uses the weights of **its own** row
+of the table held by the (multi-dataset) weight service -/
+def akOfDataset (a : List (List F)) (j : Nat) : List F := a.getD j []
+
 /-- the specification: weighted mean of the per-source ratios of event `i` -/
 def weightedMeanAt (ak : List F) (Rk : List (List F)) (i : Nat) : F :=
   sumF ((List.zip ak Rk).map (fun p => p.1 * p.2.getD i 0)) / sumF ak
@@ -124,6 +128,19 @@ def splitSizes {α : Type} (sizes : List Nat) (xs : List α) : List (List α) :=
 def calcRowS (init : List F) (groups : List (List F × List F)) (sidx : Nat := 0) : List F :=
   (List.zip (sliceBounds (groups.map (fun g => g.1.length)) sidx) groups).foldl
     (fun row p => setSlice row p.1.1 (List.zipWith (· * ·) p.2.1 p.2.2)) init
+
+/-! `SignalGenerator.create_src_params_recarray`: one row of the structured array whose fields are
+`p_1, p_1:gpidx, p_2, p_2:gpidx, …`; a row is assigned from a flat tuple **by position**, so the tuple
+has to interleave each value with its (zero) parameter index. -/
+
+/-- the tuple `(v_1, 0, v_2, 0, …)` built for a hypothesis group -/
+def paramRow (vals : List F) : List F := vals.flatMap (fun v => [v, 0])
+
+/-- the value found in field `p_i` of a row that was assigned from the flat tuple `row` -/
+def readParam (row : List F) (i : Nat) : Option F := row[2 * i]?
+
+/-- the index found in field `p_i:gpidx` -/
+def readGpidx (row : List F) (i : Nat) : Option F := row[2 * i + 1]?
 
 end
 
